@@ -47,5 +47,25 @@ Theorem C04_l1_selection_positions : forall t c key,
 Proof. exact sel_positions_refines. Qed.
 Print Assumptions C04_l1_selection_positions.
 
+(* col[[i, j, ...]] = value: the sequential, range-checked write of BaseColumn._setsequencekey (range test regenerated
+   from the source) is the L0 index-list write, including the partial effect before an out-of-range index *)
+Theorem C04_l1_index_list_write : forall (w : world) p ti name l r,
+  pool w = map abs p -> winv p ->
+  match lstep p (OSetCell ti name (AList l) r) with
+  | LUpd i t' => step w (OSetCell ti name (AList l) r) = (put w i (abs t'), OkUnit)
+  | LErrUpd i t' => step w (OSetCell ti name (AList l) r) = (put w i (abs t'), Err PlainException)
+  | LErr => exists e, snd (step w (OSetCell ti name (AList l) r)) = Err e
+  | LSkip => True
+  | LNew _ => False
+  end.
+Proof. exact setcell_list_refines. Qed.
+Print Assumptions C04_l1_index_list_write.
+
+(* DataMatrix._getrow: the regenerated bound test rejects exactly the indices Python cannot normalise *)
+Theorem C04_getrow_bound_kernel : forall i n,
+  k_getrow_oob i (Z.of_nat n) = match norm_index n i with Some _ => false | None => true end.
+Proof. exact getrow_oob_spec. Qed.
+Print Assumptions C04_getrow_bound_kernel.
+
 Example C04_example : write_at [2; 0]%nat [VInt 7; VInt 8] [VNone; VNone; VNone; VNone] = [VInt 8; VNone; VInt 7; VNone].
 Proof. reflexivity. Qed.
